@@ -21,7 +21,7 @@ import time
 import numpy as np
 
 import vf.repoenv  # noqa: F401
-from vf.common import HELD, INCONCLUSIVE, VIOLATED, Run, case_hash, main_wrapper, run_pool, seed
+from vf.common import wall_budget, HELD, INCONCLUSIVE, VIOLATED, Run, case_hash, main_wrapper, run_pool, seed
 
 PID = "C16"
 ENV = {"a": 1.75, "b": -0.625, "c": 3.5, "d": -2.25, "i": 2, "j": 1, "k": 0, "s": 0.5}
@@ -728,7 +728,7 @@ def main(tier, replay=None):
     cases = cases_for(tier, s)
     if replay:
         cases = [json.load(open(replay))["replay"]["case"]]
-    results = run_pool("c16", cases, per_case_timeout=600, chunk=1, deadline=time.time() + (480 if tier == "quick" else 3000))
+    results = run_pool("c16", cases, per_case_timeout=600, chunk=1, deadline=time.time() + wall_budget(tier, 480, 3000))
     for r in results:
         run.add(r)
     run.extra["exhaustive"] = True
